@@ -48,6 +48,9 @@ type objUse struct {
 
 func runC14(c *Ctx) {
 	R := c.R
+	// shared with C11 (R11.3): concurrent runs execute the same code – a package-level variable that the run path writes, or
+	// hands out by reference (a buffer, a pool, a cache), is accessed by several runs' goroutines with no synchronisation of its own
+	checkGlobals(c)
 	ds := Drivers(c.P)
 	R.Floor("R14.1:drivers", len(ds), 4)
 	npar := 0
